@@ -18,6 +18,7 @@ OPS = ['<', '=', '>', '<=', '>=', '<>']
 
 numbers = st.one_of(st.integers(-5, 5), st.integers(-10 ** 9, 10 ** 9), st.sampled_from([0, 1, -1, 0.0, -0.0, 0.5, -0.5, 2.5, 1e-9, 43789, 43789.25, 61, 2]),
                     st.floats(-1e6, 1e6, allow_nan=False), st.integers(-400, 400).map(lambda k: k / 8.0),
+                    st.sampled_from([{'$': 'f', 'v': 'inf'}, {'$': 'f', 'v': '-inf'}, 1e308, -1e308, 5e-324]),        # the far ends of the float domain, from the host
                     # host numbers whose class derives from int / float (an IntEnum member, a numpy-style scalar)
                     st.one_of(st.integers(-9, 9).map(lambda k: {'$': 'sub', 'v': ['int', k]}), st.integers(-40, 40).map(lambda k: {'$': 'sub', 'v': ['float', k / 4.0]})))
 
@@ -89,6 +90,8 @@ def cls(spec):
     if isinstance(spec, dict):
         if spec.get('$') == 'sub':
             return 'text' if spec['v'][0] == 'str' else 'number'
+        if spec.get('$') == 'f':
+            return 'number'
         return 'date'
     if isinstance(spec, str):
         return 'text'
@@ -193,6 +196,32 @@ def check_triple(case):
                     raise Violation(d + '%s=%s and %s<%s but not %s<%s' % (x, y, y, z, x, z), None, None)
 
 
+# ---------------------------------------------------------------- the process time zone does not matter
+
+TZ_FORMULAS = ['(DATE(2021,7,15)+0.5)=44392.5', '(DATE(2021,7,15)+0.5)<44392.5', 'DATE(2021,7,15)=44392', 'DATE(2021,1,15)=44211', '(DATE(2021,3,14)+0.105)<(DATE(2021,3,14)+0.132)', '(DATE(2021,3,14)+0.105)=(DATE(2021,3,14)+0.146)',
+               '"2021-03-28 01:30:00"<"2021-03-28 03:10:00"', 'DATEVALUE("2021-03-28 02:30:00")>DATEVALUE("2021-03-28 01:59:00")', 'DATE(2021,10,31)+0.05>DATE(2021,10,31)+0.04', 'DATE(2021,11,7)>=44507', 'DATE(1990,6,1)<>33025',
+               'DATE(2021,7,15)>"a"', 'DATE(2021,7,15)<TRUE', 'v_d=0', 'v_d<1', '44392.5>DATE(2021,7,15)']
+
+
+def enum_tz(tier, shard, nshards):
+    zones = ['America/New_York', 'Europe/London', 'Australia/Lord_Howe', 'America/Sao_Paulo', 'Asia/Tokyo']
+    for i, z in enumerate(zones[:3] if tier == 'quick' else zones):
+        if i % nshards == shard:
+            yield z
+
+
+def check_tz(zone):
+    import os
+    from ..freshproc import run_fresh
+    if not os.path.exists('/usr/share/zoneinfo/' + zone):
+        raise Skip('zone-data-missing')
+    base = run_fresh(TZ_FORMULAS, env_extra={'TZ': 'UTC'})
+    other = run_fresh(TZ_FORMULAS, env_extra={'TZ': zone})
+    for f, a, b in zip(TZ_FORMULAS, base, other):
+        if a != b:
+            raise Violation('in a process whose time zone is %s, %s gives %s; under UTC it gives %s (dates order by serial, whatever the zone of the process)' % (zone, f, b, a), b, a)
+
+
 def pair_classes(c):
     a, b = cls(c['a']), cls(c['b'])
     out = ['%s-%s' % tuple(sorted([a, b])), 'how:' + c['how']]
@@ -232,6 +261,8 @@ LAWS = [
         required=tuple(PAIRS) + ('how:lit', 'how:cell', 'near-pair'), quick=6000, thorough=300000, shards=(8, 16),
         rule='ordered pairs of scalars (a quarter of them a date-time with a number of the same day, or two values that differ by 1-4 ulps, integers beyond 2^53 with their neighbours and float twins, date-times 1 ms - 200 s apart); one formula evaluates the six operators both ways round: trichotomy, derived operators, converse, and direction against the reference order (number|date by value/serial < text < logical, blank as 0 / "" / FALSE); '
              'non-trivial = operands of different classes, or unequal same-class operands that are not both small positive integers'),
+    Law('timezone_independence', check_tz, enumerate=enum_tz, shards=(3, 5), guard=400,
+        rule='16 comparisons between dates, date-times, date text and serials are evaluated in a brand-new interpreter under TZ=UTC and under zones with daylight saving: every outcome is the same'),
     Law('blank', check_blank, strategy=st.fixed_dictionaries({'y': scalar, 'how': how_s}), quick=1500, thorough=60000, shards=(4, 8),
         classes=lambda c: (cls(c['y']),), required=('number', 'text', 'logical', 'date', 'blank'),
         rule='blank OP y gives the same twelve answers as 0 OP y (numbers, dates), "" OP y (text), FALSE OP y (logicals); blank = blank'),
